@@ -467,6 +467,50 @@ Definition interpret_lenient (T : nat) (m0 : mval) (stmts : list stmt) : lres :=
   end.
 End Interp.
 
+(* Reference for the remainder of a lenient run: ONE walk over the statements in source order.  A statement
+   is looked at with the message of its own pass (ma: the pass over non-custom options, mb: the pass over
+   custom options) and is kept exactly when its own interpretation reported an error. *)
+Fixpoint ref_walk (sch : schema) (tt : N) (T : nat) (ma mb : mval) (sts : list stmt) : mval * mval * list stmt :=
+  match sts with
+  | [] => (ma, mb, [])
+  | st :: r =>
+    if is_custom st then
+      let '(mb', e) := interpret_field sch tt T mb (sname st) (svalue st) in
+      let '(ma2, mb2, rem) := ref_walk sch tt T ma mb' r in
+      (ma2, mb2, match e with [] => rem | _ :: _ => st :: rem end)
+    else
+      let '(ma', e) := interpret_field sch tt T ma (sname st) (svalue st) in
+      let '(ma2, mb2, rem) := ref_walk sch tt T ma' mb r in
+      (ma2, mb2, match e with [] => rem | _ :: _ => st :: rem end)
+  end.
+
+(* guards under which a failing statement leaves the message as it was *)
+Definition scalar_shaped (v : oval) : bool := match v with OMsg _ | OList _ => false | _ => true end.
+Fixpoint prefix_present (sch : schema) (md : nat) (m : mval) (name : list npart) {struct name} : bool :=
+  match name with
+  | [] => true
+  | nm :: rest =>
+    match rest with
+    | [] => true
+    | _ :: _ =>
+      match lookup_part sch md nm with
+      | Err _ => true
+      | Ok fld =>
+        match fkind fld with
+        | KMsg sub =>
+          match mget (fnum fld) m with
+          | Some (VM s) => prefix_present sch sub s rest
+          | _ => false
+          end
+        | _ => true
+        end
+      end
+    end
+  end.
+Definition no_targets (f : field) : bool := match ftargets f with [] => true | _ => false end.
+Definition targets_free (sch : schema) : bool :=
+  forallb (fun d => forallb no_targets (mfields d)) (smsgs sch) && forallb (fun x => no_targets (xfield x)) (sexts sch).
+
 (* InterpretUnlinkedOptions: lenient, and no extension can be resolved *)
 Definition no_exts (sch : schema) : schema := mkSchema (smsgs sch) (senums sch) [].
 Definition interpret_unlinked (sch : schema) (tt : N) (T : nat) (m0 : mval) (stmts : list stmt) : lres :=
@@ -658,3 +702,16 @@ Definition opt_chk_lenient (c : opt_case) : bool :=
   match c with OC sch tg T stmts _ ol _ => lenient_matches sch T stmts (interpret_lenient sch tg T [] stmts) ol end.
 Definition opt_chk_unlinked (c : opt_case) : bool :=
   match c with OC sch tg T stmts _ _ ou => lenient_matches sch T stmts (interpret_unlinked sch tg T [] stmts) ou end.
+
+(* ------------------------------------------------------------------ statements that mention no extension *)
+Definition lname_is_field (n : lname) : bool := match n with LField _ => true | LExt _ => false end.
+Fixpoint value_ext_free (v : oval) : bool :=
+  match v with
+  | OMsg fs => forallb (fun p => lname_is_field (fst p) && value_ext_free (snd p)) fs
+  | OList es => forallb value_ext_free es
+  | _ => true
+  end.
+Definition npart_is_field (n : npart) : bool := match n with PField _ => true | PExt _ => false end.
+Definition stmt_ext_free (st : stmt) : bool := forallb npart_is_field (sname st) && value_ext_free (svalue st).
+(* every non-custom statement is free of extensions (custom ones start with one by definition) *)
+Definition noncustom_ext_free (sts : list stmt) : bool := forallb (fun st => is_custom st || stmt_ext_free st) sts.
